@@ -151,6 +151,27 @@ type C16Funcs2 struct {
 	V   int
 }
 
+// members of one struct type held by pointer and by value: the pointer-receiver method exists on one only
+type C16Recv struct{ N int }
+
+func (r *C16Recv) Bump() int { return r.N + 1 }
+func (r C16Recv) Get() int   { return r.N }
+
+type C16Pair struct {
+	Ptr *C16Recv
+	Val C16Recv
+}
+
+// names outside ASCII (the lexer takes any Unicode letter)
+type C16Uni struct {
+	Größe int
+	Δ     string
+	Ünit  float64
+	имя   string
+}
+
+func (C16Uni) Länge() int { return 3 }
+
 // a NAMED map type whose underlying type is map[string]interface{}
 type C16Vars map[string]interface{}
 
@@ -191,6 +212,8 @@ func c16Catalogue() map[string]interface{} {
 		"LocalA": c16LocalA(), "LocalB": c16LocalB(), "LocalA-again": c16LocalA(),
 		"Funcs2": C16Funcs2{Fa: func(...interface{}) interface{} { return 1 }, Fst: func(...fmt.Stringer) fmt.Stringer { return nil }, Fe: func(...interface{}) error { return nil }},
 		"map[string]func() int": map[string]func() int{"fn": func() int { return 1 }, "Other": func() int { return 2 }},
+		"Pair": C16Pair{Ptr: &C16Recv{N: 1}, Val: C16Recv{N: 2}}, "*Pair": &C16Pair{Ptr: &C16Recv{N: 1}},
+		"Uni": C16Uni{Größe: 1, Δ: "d"}, "map-uni": map[string]interface{}{"Größe": 1, "naïve": "x", "имя": 2},
 		"Vars": C16Vars{"A": 1, "count": 2, "fn": func() int { return 1 }, "Nested": wrap.SA, "nilv": nil},
 	}
 }
@@ -594,6 +617,7 @@ func judgeC16(c *core.Case, cfg *core.Config) core.Verdict {
 		}
 	}
 	// nested members: every field of struct (or pointer-to-struct) type, one level down
+	var nested []string
 	if isStruct {
 		st := envType
 		if st.Kind() == reflect.Ptr {
@@ -623,6 +647,31 @@ func judgeC16(c *core.Case, cfg *core.Config) core.Verdict {
 				}
 				if m := checkRole(f.Name+"."+n+"()", ft, n, true, false); m != "" {
 					return fail("%s", m)
+				}
+				nested = append(nested, f.Name+"."+n, f.Name+"."+n+"()")
+			}
+		}
+		// typing is compositional: an array literal of two member expressions is accepted exactly when each of them
+		// is (whatever the checker remembered from the first while it looks at the second)
+		acc := map[string]bool{}
+		for _, e := range nested {
+			acc[e] = c16Compile(e, env) == nil
+		}
+		for i, a := range nested {
+			for j, b := range nested {
+				// same member name and role on two different members of the environment, one accepted, or both
+				if i == j || a[strings.IndexByte(a, '.'):] != b[strings.IndexByte(b, '.'):] || !acc[a] && !acc[b] {
+					continue
+				}
+				src := "[" + a + ", " + b + "]"
+				got := c16Compile(src, env) == nil
+				if got != (acc[a] && acc[b]) {
+					return fail("`%s` accepted: %v, `%s` accepted: %v, but `%s` accepted: %v", a, acc[a], b, acc[b], src, got)
+				}
+				if got {
+					if _, err := func() (interface{}, error) { p, _ := compile(src, expr.Env(env)); return run(p, env) }(); err != nil && !strings.Contains(err.Error(), "nil") {
+						return fail("`%s` is accepted but fails at run time on a fully populated value: %s", src, firstLine(err.Error()))
+					}
 				}
 			}
 		}
